@@ -3,7 +3,7 @@
    Proof files: CanonFacts.v (preferMove), Canon1-4.v (the loop of Canonical), on top of C14 (SymRules*.v, SymCode*.v) and C01. *)
 From Coq Require Import NArith ZArith List Bool.
 Require Import Rules SymRules2.
-Require Import Board Move GameOver Tps Symmetry CanonFacts Refine Preserve5 Canon1 Canon2 Canon3 Canon4 Canon5.
+Require Import Board Move GameOver Tps Symmetry CanonFacts Refine Preserve5 Canon1 Canon2 Canon2b Canon3 Canon4 Canon5.
 Require Import Generated.Consts.
 Close Scope Z_scope. Close Scope N_scope.
 
@@ -23,29 +23,29 @@ Print Assumptions C15_prefer_move_strict_total.
    the rules of Rules.v from the start position P0 sz (= abs of the model's start position), the canonical one ending in the image
    img j of the other for one of the eight symmetries j (images_at).  So the input game is legal too.
    Hypotheses, all visible:
-   - canon_input m: coordinates within [-20,20] (every board square and every near miss; FULL statement: the whole int8 range, where the
-     code's flips wrap around: not proved - hence _partial), type code <= 8, a slide has at least one drop (TransformMove panics otherwise);
+   - canon_input m: ANY int8 coordinates (the Go fields are int8; the code's wrapping flips are covered: an accepted move is shown to have its
+     origin on the board, Canon3.cstep_onboard), type code <= 8, a slide has at least one drop (TransformMove panics otherwise: forced by the code);
    - nocoll_trace sz ms (NoCollision): in every state (eight boards) the loop reaches BEFORE a move, a board whose 64-bit hash equals that of
      board 0 - the comparison Canonical makes - shows the same position as board 0.
    Nothing is assumed about the boards: C01's invariant holds of the start position and is preserved by Position.Move (Preserve*.v, Reach1.v);
-   for sizes 3..6 the game has at most 64 pieces, so no stack can outgrow the 64-bit stack word. *)
-Theorem C15_canonical_legal_images_partial : forall sz, (3 <= sz <= 6)%N -> forall ms cs,
+   for sizes 3..6 the game has at most 64 pieces, so no stack can outgrow the 64-bit stack word (sizes 7, 8: next theorem). *)
+Theorem C15_canonical_legal_images : forall sz, (3 <= sz <= 6)%N -> forall ms cs,
   Forall canon_input ms -> nocoll_trace sz ms -> canonical gen_basis sz ms = Ok cs ->
   length cs = length ms /\
   forall k, k <= length ms ->
     exists j A B, j < 8 /\ play (P0 sz) (map raw (firstn k cs)) = Some A /\ play (P0 sz) (map raw (firstn k ms)) = Some B /\ A = img j B.
 Proof. exact canonical_legal_images. Qed.
-Print Assumptions C15_canonical_legal_images_partial.
+Print Assumptions C15_canonical_legal_images.
 
 (* the same for every size 3..8 (84 and 104 pieces on 7x7 and 8x8), with the exact limit of the bit representation as a further hypothesis:
    sc_trace sz heights64 ms - no board the loop produces has a stack above 64 (C01_over64_refuted shows Position.Move itself is wrong beyond) *)
-Theorem C15_canonical_legal_images64_partial : forall sz, (3 <= sz <= 8)%N -> forall ms cs,
+Theorem C15_canonical_legal_images64 : forall sz, (3 <= sz <= 8)%N -> forall ms cs,
   Forall canon_input ms -> nocoll_trace sz ms -> sc_trace sz heights64 ms -> canonical gen_basis sz ms = Ok cs ->
   length cs = length ms /\
   forall k, k <= length ms ->
     exists j A B, j < 8 /\ play (P0 sz) (map raw (firstn k cs)) = Some A /\ play (P0 sz) (map raw (firstn k ms)) = Some B /\ A = img j B.
 Proof. exact canonical_legal_images64. Qed.
-Print Assumptions C15_canonical_legal_images64_partial.
+Print Assumptions C15_canonical_legal_images64.
 
 (* the hypotheses are satisfiable and the theorems apply: 5x5 (e5, e4, e4 slides up; Canonical rotates by 180 degrees, then flips the
    diagonal: a1, b1, b1 slides left) and the 8x8 analogue *)
